@@ -56,6 +56,34 @@ def inv_task(task):
     return probs
 
 
+def sample_task(task):
+    """Worker: the partition invariants on every line-prefix (with and without final newline) of one sample input of
+    norminette's own tests: pops tile the token list, each >= 1 token, nothing takes the unrecognised path unless the
+    run ends in the fatal diagnostic, no stray output.  (Internal errors on damaged input are C05's business.)"""
+    fname, text = task
+    ls = text.split("\n")
+    out = {}
+    n = 0
+    variants = [text] + [v for k in range(1, len(ls)) for v in ("\n".join(ls[:k]) + "\n", "\n".join(ls[:k]))]
+    for v in variants:
+        n += 1
+        r = impl.run_text(fname, v, trace=True, fuel=400 * (len(v) + 50))
+        if r.exc is not None:
+            if r.exc[0] == "FuelExhausted" and r.trace and any(x[0] < 1 for x in r.trace[-3:]):
+                out.setdefault("pop of 0 tokens (the run never advances)", v)
+            continue
+        probs, nseg, unrec = progrun.segmentation(r)
+        if unrec:
+            probs.append(f"{unrec} tokens took the unrecognised path without a fatal diagnostic")
+        if r.stdout:
+            probs.append("stray output")
+        for p in probs:
+            key = p.split(" (")[0][:60]
+            if key not in out or len(v) < len(out[key]):
+                out[key] = v
+    return n, out
+
+
 def run(tier, seed):
     st = explore.Stats()
     failures = []
@@ -132,6 +160,15 @@ def run(tier, seed):
     for (fname, text, label), probs in zip(vtasks, vres):
         for pr in probs:
             failures.append(Failure("C07", f"{label}:{pr.split(' (')[0][:50]}", f"{label}: {pr}", {"kind": "inv", "fname": fname, "text": text}))
+    from .. import corpus
+    smp = list(corpus.samples())
+    sres = explore.pmap(sample_task, smp, chunksize=2)
+    for (fname, text), (n, out) in zip(smp, sres):
+        st.runs += n
+        st.transitions += n
+        st.bump("sample_line_prefixes", n)
+        for key, v in out.items():
+            failures.append(Failure("C07", f"sample-prefix:{key}", f"line-prefix of {fname}: {key}", {"kind": "sample", "fname": fname, "text": v}))
     for mode in ("mid", "last-nl", "last-nonl"):
         if st.vacuity.get(f"took_unrecognised_path:{mode}", 0) == 0:
             raise HarnessError(f"no inserted fragment took the unrecognised path in position class {mode}")
@@ -153,6 +190,17 @@ def run(tier, seed):
 
 
 def replay(payload):
+    if payload["kind"] == "sample":
+        r = impl.run_text(payload["fname"], payload["text"], trace=True, fuel=400 * (len(payload["text"]) + 50))
+        if r.exc is not None:
+            bad = r.exc[0] == "FuelExhausted" and r.trace and any(x[0] < 1 for x in r.trace[-3:])
+            return [Failure("C07", "sample-prefix", "pop of 0 tokens", payload)] if bad else []
+        probs, nseg, unrec = progrun.segmentation(r)
+        if unrec:
+            probs.append("unrecognised path without a fatal diagnostic")
+        if r.stdout:
+            probs.append("stray output")
+        return [Failure("C07", "sample-prefix", p, payload) for p in probs]
     if payload["kind"] == "inv":
         return [Failure("C07", "invariant", p, payload) for p in inv_task((payload["fname"], payload["text"], ""))]
     if payload["kind"] == "frag":
